@@ -656,6 +656,41 @@ func checkC19(e *core.Env) {
 		}
 		os.RemoveAll(mod)
 
+		// import_path together with an M mapping for one of several generated files: the mapping wins for
+		// that file, the override applies to the others
+		{
+			idx += 2
+			f1 := genProtoFile(r, idx-1, fmt.Sprintf("mp%d", batch), "mappedsrc")
+			f2 := genProtoFile(r, idx, fmt.Sprintf("mp%d", batch), "mappedsrc")
+			param := fmt.Sprintf("import_path=%s/ovr,M%s=%s/mapped;mapped,legacy_stubs", genModule, f1.Name, genModule)
+			req := &pluginpb.CodeGeneratorRequest{Parameter: proto.String(param), FileToGenerate: []string{f1.Name, f2.Name}, ProtoFile: []*descriptorpb.FileDescriptorProto{depDescriptor(), f1.FD, f2.FD}}
+			resp, stderr, rerr := runPlugin(bin, req)
+			e.Eval("option|import_path+M|multi-file", true)
+			w := map[string]any{"options": param, "stderr": trunc(stderr, 400)}
+			if rerr != nil || resp.GetError() != "" {
+				e.Violate("options/refused", fmt.Sprintf("valid option set %q refused: %v %s", param, rerr, resp.GetError()), w)
+			} else {
+				want := map[string]string{
+					genModule + "/mapped/" + strings.TrimSuffix(filepath.Base(f1.Name), ".proto") + ".pb.grpchan.go": "mapped",
+					genModule + "/ovr/" + strings.TrimSuffix(filepath.Base(f2.Name), ".proto") + ".pb.grpchan.go":    "ovr",
+				}
+				for _, of := range resp.File {
+					pkg, ok := want[of.GetName()]
+					if !ok {
+						e.Violate("options/import-path-vs-mapping", fmt.Sprintf("options %q: unexpected output file %q (the M mapping must win for %s, import_path applies to %s)", param, of.GetName(), f1.Name, f2.Name), w)
+						continue
+					}
+					delete(want, of.GetName())
+					if af, perr := parser.ParseFile(token.NewFileSet(), "x.go", of.GetContent(), parser.PackageClauseOnly); perr != nil || af.Name.Name != pkg {
+						e.Violate("options/import-path-vs-mapping", fmt.Sprintf("options %q: file %q declares package %v, want %q", param, of.GetName(), af, pkg), w)
+					}
+				}
+				for missing := range want {
+					e.Violate("options/import-path-vs-mapping", fmt.Sprintf("options %q: expected output file %q was not generated", param, missing), w)
+				}
+			}
+		}
+
 		// options that are only parsed (not executed), and invalid options
 		for oi, opt := range otherOpts {
 			idx++
